@@ -57,7 +57,7 @@ inductive K | user | ext | fstop | fdflt (h0 : Nat)
   deriving DecidableEq, Repr
 
 /-- continuation of `get_default_call_rcu_data()` -/
-inductive GK | call (id : Nat) | free (h0 : Nat)
+inductive GK | call (id : Nat) | free (h0 : Nat) | ret
   deriving DecidableEq, Repr
 
 /-- operations that run under `call_rcu_mutex` as one block -/
@@ -66,6 +66,7 @@ inductive LOp
   | createIfAbsent (cpu : Nat) (rt : Bool)   -- loop body of create_all_cpu_call_rcu_data
   | setCpu (cpu : Nat) (ho : Option Nat)     -- set_cpu_call_rcu_data(cpu, crdp)
   | allocArr                                 -- alloc_cpu_call_rcu_data()
+  | unsetDflt                                -- urcu_call_rcu_exit(): drop the default helper if it is idle
   deriving DecidableEq, Repr
 
 inductive Res | unit | helper (h : Nat) | absent | code (e : Nat)
@@ -159,7 +160,7 @@ inductive Label
   | rlock (t : Nat) | runlock (t : Nat) | syncStart (t : Nat) | syncEnd (t : Nat)
   -- call_rcu()
   | crCall (t id : Nat) | crSelThr (t : Nat) | crSelCpu (t cpu : Nat) | crSelNoCpu (t cpu : Nat)
-  | gdLd (t : Nat) | gdLock (t : Nat) | gdCreate (t : Nat) | gdUnlock (t : Nat)
+  | gdCall (t : Nat) | gdLd (t : Nat) | gdLock (t : Nat) | gdCreate (t : Nat) | gdUnlock (t : Nat)
   | enq (t : Nat) | inc (t : Nat) | ldFlags (t : Nat) | ldFutex (t : Nat) | stFutex (t : Nat) | wake (t : Nat)
   | crRet (t : Nat)
   -- create_call_rcu_data / set_cpu_call_rcu_data / create_all_cpu_call_rcu_data
@@ -216,12 +217,14 @@ def SetObl (s : State) : Option Nat → Prop
 
 instance (s ho) : Decidable (SetObl s ho) := by unfold SetObl; cases ho <;> infer_instance
 
-/-- obligation on the argument of a locked operation -/
-def OpObl (s : State) : LOp → Prop
+/-- obligation on the argument of a locked operation.  `urcu_call_rcu_exit()` is the library
+destructor: it runs when every other thread is outside the call_rcu API. -/
+def OpObl (c : Cfg) (s : State) (t : Nat) : LOp → Prop
   | .setCpu _ ho => SetObl s ho
+  | .unsetDflt => ∀ t', t' < nthr c s → t' ≠ t → s.tpc t' = .idle
   | _ => True
 
-instance (s op) : Decidable (OpObl s op) := by unfold OpObl; cases op <;> infer_instance
+instance (c s t op) : Decidable (OpObl c s t op) := by unfold OpObl; cases op <;> infer_instance
 
 /-- `GpSpec`: a grace period that started at `a` may end only when every read-side section that
 began before `a` has ended -/
@@ -303,6 +306,8 @@ def step (c : Cfg) (s : State) : Label → Option State
         some { s with tpc := upd s.tpc t (.gdLd (.call id)), clock := s.clock + 1 }
       else none
     | _, _ => none
+  | .gdCall t =>
+    if userCtx c s t = true ∧ s.tpc t = .idle then some { s with tpc := upd s.tpc t (.gdLd .ret), clock := s.clock + 1 } else none
   | .gdLd t =>
     match s.tpc t with
     | .gdLd k =>
@@ -311,6 +316,7 @@ def step (c : Cfg) (s : State) : Label → Option State
         match k with
         | .call id => some { s with tpc := upd s.tpc t (.enq (.user id) d .user), via := upd s.via t .dflt, clock := s.clock + 1 }
         | .free h0 => some { s with tpc := upd s.tpc t (.fLock2 h0), clock := s.clock + 1 }
+        | .ret => some { s with tpc := upd s.tpc t .idle, clock := s.clock + 1 }
       | none => some { s with tpc := upd s.tpc t (.gdLock k), clock := s.clock + 1 }
     | _ => none
   | .gdLock t =>
@@ -334,6 +340,7 @@ def step (c : Cfg) (s : State) : Label → Option State
         match k with
         | .call id => some { s with mutex := none, tpc := upd s.tpc t (.enq (.user id) d .user), via := upd s.via t .dflt, clock := s.clock + 1 }
         | .free h0 => some { s with mutex := none, tpc := upd s.tpc t (.fLock2 h0), clock := s.clock + 1 }
+        | .ret => some { s with mutex := none, tpc := upd s.tpc t .idle, clock := s.clock + 1 }
       else none
     | _, _ => none
   | .enq t =>
@@ -376,7 +383,7 @@ def step (c : Cfg) (s : State) : Label → Option State
     else none
   -- ---------------------------------------------------------------- operations under the mutex
   | .opCall t op =>
-    if userCtx c s t = true ∧ s.tpc t = .idle ∧ OpObl s op then
+    if userCtx c s t = true ∧ s.tpc t = .idle ∧ OpObl c s t op then
       some { s with tpc := upd s.tpc t (.opLock op), clock := s.clock + 1 }
     else none
   | .opLock t =>
@@ -406,6 +413,13 @@ def step (c : Cfg) (s : State) : Label → Option State
                       clock := s.clock + 1 }
     | .opDo .allocArr =>
       some { s with arr := true, tpc := upd s.tpc t (.opUnlock .unit), clock := s.clock + 1 }
+    | .opDo .unsetDflt =>
+      match s.dflt with
+      | some d =>
+        if s.queue d = [] then
+          some { s with dflt := none, unpubT := upd s.unpubT d s.clock, tpc := upd s.tpc t (.opUnlock (.helper d)), clock := s.clock + 1 }
+        else some { s with tpc := upd s.tpc t (.opUnlock .absent), clock := s.clock + 1 }
+      | none => some { s with tpc := upd s.tpc t (.opUnlock .absent), clock := s.clock + 1 }
     | _ => none
   | .opUnlock t =>
     match s.tpc t with
